@@ -107,10 +107,12 @@ retry:
 			}
 			// TODO: why is this necessary to ensure correct position info?
 			p.readEOF = false
-			if p.openBquotes > 0 && p.bsp < uint(len(p.bs)) &&
-				((bquotes < p.openBquotes && bquoteEscaped(p.bs[p.bsp])) ||
+			// Use peek rather than looking at the buffered bytes alone,
+			// as the next byte may not have been read from the source yet.
+			if p.openBquotes > 0 &&
+				((bquotes < p.openBquotes && bquoteEscaped(p.peek())) ||
 					// Backquotes within double quotes also escape double quotes.
-					(bquotes < p.openBquoteDbls && p.bs[p.bsp] == '"')) {
+					(bquotes < p.openBquoteDbls && p.peek() == '"')) {
 				// We turn backquote command substitutions into $(),
 				// so we remove the extra backslashes needed by the backquotes.
 				bquotes++
